@@ -182,6 +182,44 @@ def kw_source(role, names, sfx=""):
     return "\n".join(L) + "\n"
 
 
+def kw_types(role, n):
+    """type names that belong to name `n` in the one-type-per-name layout"""
+    return {"param": ["KwParam_" + n], "method": ["KwMethod_" + n, "KwMethodS_" + n], "struct-field": ["KwField_" + n], "enum-variant": ["KwVariant_" + n],
+            "type": [n, "KwTypeUser_" + n]}[role]
+
+
+def kw_single_source(role, names):
+    """same constructs as kw_source but every name in types of its own (kw_types): one generated header per name, so a failing header
+    names the culprit and a failure cannot mask another name. With one name this is the minimal witness module."""
+    L = ["#[diplomat::bridge]", "pub mod ffi {"]
+    if role == "param":
+        L.append("    use diplomat_runtime::DiplomatStr;")
+        L.append("    pub struct KwPSt { pub a: u8 }")
+    for n in names:
+        if role == "param":
+            L.append("    #[diplomat::opaque]\n    pub struct KwParam_%s;\n    impl KwParam_%s {" % (n, n))
+            L.append("        pub fn p(%s: u8) {}" % n)
+            L.append("        pub fn s(&self, %s: &DiplomatStr) {}" % n)
+            L.append("        pub fn t(&self, %s: KwPSt) -> u8 { 0 }" % n)
+            L.append("    }")
+        elif role == "method":
+            L.append("    #[diplomat::opaque]\n    pub struct KwMethod_%s;\n    impl KwMethod_%s {\n        pub fn %s() {}\n    }" % (n, n, n))
+            L.append("    #[diplomat::opaque]\n    pub struct KwMethodS_%s;\n    impl KwMethodS_%s {\n        pub fn %s(&self, x: u8) -> u8 { x }\n    }" % (n, n, n))
+        elif role == "struct-field":
+            L.append("    pub struct KwField_%s {\n        pub %s: u8,\n    }" % (n, n))
+            L.append("    impl KwField_%s {\n        pub fn kw_get() -> KwField_%s { unimplemented!() }\n        pub fn kw_take(self) {}\n    }" % (n, n))
+        elif role == "enum-variant":
+            L.append("    pub enum KwVariant_%s {\n        %s,\n        KwOtherVariant,\n    }" % (n, n))
+            L.append("    impl KwVariant_%s {\n        pub fn kw_get() -> KwVariant_%s { unimplemented!() }\n        pub fn kw_take(self) {}\n    }" % (n, n))
+        elif role == "type":
+            L.append("    #[diplomat::opaque]\n    pub struct %s;\n    impl %s {\n        pub fn kwm(&self) -> u8 { 0 }\n    }" % (n, n))
+            L.append("    #[diplomat::opaque]\n    pub struct KwTypeUser_%s;\n    impl KwTypeUser_%s {\n        pub fn u(x: &%s) {}\n    }" % (n, n, n))
+        else:
+            raise ValueError(role)
+    L.append("}")
+    return "\n".join(L) + "\n"
+
+
 # ---------------------------------------------------------------------------------------------
 # 3. whole-module shapes. A group = one source file (one or several bridge modules); every type carries a cause label.
 
